@@ -607,9 +607,6 @@ func runC01(c *Ctx) {
 								stores++
 								fresh := false
 								for _, x := range st.Block().Instrs {
-									if x == ssa.Instruction(st) {
-										break
-									}
 									if call, isCall := x.(ssa.CallInstruction); isCall {
 										switch LastField(CalleeName(call.Common())) {
 										case "emitLocalVar", "emitLocal", "emitNew":
@@ -618,7 +615,7 @@ func runC01(c *Ctx) {
 									}
 								}
 								if !isBoolConst(st.Val, true) || !fresh {
-									okFlag, why = false, "an entry of the list is set without an allocation of the target (emitLocalVar/emitLocal/emitNew) just before it"
+									okFlag, why = false, "an entry of the list is set without an allocation of the target (emitLocalVar/emitLocal/emitNew) in the same basic block"
 								}
 							})
 							if stores == 0 {
